@@ -360,6 +360,7 @@ func runBatch(b batch, scale int) *rp.Fail {
 		}
 	}
 	clients := make([]uhppote.IUHPPOTE, b.Clients)
+	var mk sync.WaitGroup
 	for i := range clients {
 		cc := cfg
 		if i < len(b.AnyAddr) && b.AnyAddr[i] {
@@ -374,13 +375,24 @@ func runBatch(b batch, scale int) *rp.Fail {
 				cc.Devices[j].RawIP = fmt.Sprintf("::ffff:%d.%d.%d.%d", ip[0], ip[1], ip[2], ip[3])
 			}
 		}
-		if b.PauseUs > 0 {
-			us := b.PauseUs
-			clients[i] = hook.RealPaused(cc, func(string) { time.Sleep(time.Duration(us) * time.Microsecond) })
-		} else {
-			clients[i] = hook.Real(cc)
-		}
+		// (several clients coexist: they are also CREATED at the same time, by goroutines of their own - and a few short-lived
+		// ones next to them)
+		i := i
+		mk.Add(1)
+		go func() {
+			defer mk.Done()
+			for k := 0; k < 3; k++ {
+				hook.Real(cc)
+			}
+			if b.PauseUs > 0 {
+				us := b.PauseUs
+				clients[i] = hook.RealPaused(cc, func(string) { time.Sleep(time.Duration(us) * time.Microsecond) })
+			} else {
+				clients[i] = hook.Real(cc)
+			}
+		}()
 	}
+	mk.Wait()
 	// the farm decides the delay from the request bytes: register them (requests of one batch are distinct by nonce)
 	type failure struct{ fp, msg string }
 	var failures []failure
